@@ -43,7 +43,7 @@ def _lift(x):
 
 def _mk(e):
     e = z3.simplify(e)
-    if z3.is_int_value(e):
+    if z3.is_int_value(e) and not getattr(_engine, "keep_symbolic", False):
         return e.as_long()
     return SymInt(e)
 
@@ -198,7 +198,7 @@ class SymInt:
             raise Concretized("bitwise operator on two symbolic operands / negative mask")
         _engine.side_condition(self.e >= 0, "bitwise operand >= 0")
         if c & (c + 1) == 0 and keep_set:          # mask of the form 2^k - 1
-            return _mk(self.e % z3.IntVal(c + 1)) if c else 0
+            return _mk(self.e % z3.IntVal(c + 1)) if c else _mk(z3.IntVal(0))
         acc = z3.IntVal(0)
         b = 0
         while (c >> b):
@@ -208,13 +208,30 @@ class SymInt:
             b += 1
         return _mk(acc)
 
-    def __and__(self, o): return self._bits(o, True)
+    def __and__(self, o):
+        if isinstance(o, SymInt):
+            oc = z3.simplify(o.e)
+            if not z3.is_int_value(oc):
+                raise Concretized("bitwise and of two symbolic operands")
+            o = oc.as_long()
+        if type(o) is int and o < 0:           # x & ~m  =  x - (x & m)
+            return self - self._bits(~o, True)
+        return self._bits(o, True)
     __rand__ = __and__
 
     def __or__(self, o):
+        if isinstance(o, SymInt):
+            oc = z3.simplify(o.e)
+            if z3.is_int_value(oc):
+                o = oc.as_long()
+            else:
+                return _engine.disjoint_or(self, o)
         r = self._bits(o, False)
         return self + r
     __ror__ = __or__
+
+    def __invert__(self):
+        return _mk(-self.e - 1)
 
     def __neg__(self): return _mk(-self.e)
     def __pos__(self): return self
@@ -246,9 +263,16 @@ class SymInt:
         return _engine.branch(self.e != 0)
 
     def __hash__(self):
+        # keep_symbolic mode: every integer the code computes stays a proxy and all proxies collide on
+        # hash 0, so dict/set lookups fall through to __eq__ (which forks) - sound for symbolic keys
+        if getattr(_engine, "keep_symbolic", False):
+            return 0
         raise Concretized("hash of a symbolic int")
 
     def __index__(self):
+        e = z3.simplify(self.e)
+        if z3.is_int_value(e):
+            return e.as_long()          # a proxy that is in fact a constant
         raise Concretized("__index__ of a symbolic int")
     __int__ = __index__
 
@@ -258,6 +282,88 @@ class SymInt:
     def __repr__(self):
         return "<sym>"
     __str__ = __repr__
+
+
+BVW = 16
+
+
+class SymBV:
+    """Bit-vector proxy (16 bit) for bit-twiddling code (`_Shadow.decode_address`).  Every result stays a
+    proxy (also constants), all proxies hash to 0: dict / set lookups fall through to __eq__, which forks."""
+    __slots__ = ("e",)
+
+    def __init__(self, e):
+        self.e = e
+
+    @staticmethod
+    def lift(x):
+        if isinstance(x, SymBV):
+            return x.e
+        if isinstance(x, bool):
+            return z3.BitVecVal(int(x), BVW)
+        if isinstance(x, int):
+            return z3.BitVecVal(x, BVW)
+        return None
+
+    def _b(self, o, f, swap=False):
+        oe = SymBV.lift(o)
+        if oe is None:
+            return NotImplemented
+        a, b = (oe, self.e) if swap else (self.e, oe)
+        return SymBV(z3.simplify(f(a, b)))
+
+    def __add__(self, o): return self._b(o, lambda a, b: a + b)
+    def __radd__(self, o): return self._b(o, lambda a, b: a + b, True)
+    def __sub__(self, o): return self._b(o, lambda a, b: a - b)
+    def __rsub__(self, o): return self._b(o, lambda a, b: a - b, True)
+    def __mul__(self, o): return self._b(o, lambda a, b: a * b)
+    def __rmul__(self, o): return self._b(o, lambda a, b: a * b, True)
+    def __and__(self, o): return self._b(o, lambda a, b: a & b)
+    def __rand__(self, o): return self._b(o, lambda a, b: a & b, True)
+    def __or__(self, o): return self._b(o, lambda a, b: a | b)
+    def __ror__(self, o): return self._b(o, lambda a, b: a | b, True)
+
+    def __mod__(self, o):
+        if not (type(o) is int and o > 0):
+            raise Concretized("modulo by a symbolic / non-positive value")
+        return self._b(o, lambda a, b: z3.URem(a, b))      # harness bounds keep values non-negative
+
+    def __invert__(self): return SymBV(z3.simplify(~self.e))
+
+    def _c(self, o, f):
+        oe = SymBV.lift(o)
+        if oe is None:
+            return NotImplemented
+        return _mkb(f(self.e, oe))
+
+    def __lt__(self, o): return self._c(o, lambda a, b: a < b)
+    def __le__(self, o): return self._c(o, lambda a, b: a <= b)
+    def __gt__(self, o): return self._c(o, lambda a, b: a > b)
+    def __ge__(self, o): return self._c(o, lambda a, b: a >= b)
+
+    def __eq__(self, o):
+        oe = SymBV.lift(o)
+        return False if oe is None else _mkb(self.e == oe)
+
+    def __ne__(self, o):
+        oe = SymBV.lift(o)
+        return True if oe is None else _mkb(self.e != oe)
+
+    def __hash__(self): return 0
+
+    def __index__(self):
+        e = z3.simplify(self.e)
+        if z3.is_bv_value(e):
+            return e.as_signed_long()
+        raise Concretized("__index__ of a symbolic bit-vector")
+    __int__ = __index__
+
+    def __bool__(self):
+        return _engine.branch(self.e != 0)
+
+    def __repr__(self): return "<symbv>"
+    __str__ = __repr__
+    __format__ = lambda self, spec: "<symbv>"
 
 
 class SymRange:
@@ -278,10 +384,14 @@ class SymRange:
         return self is o
 
     def __contains__(self, x):
-        raise Concretized("membership test in a symbolic range")
+        return bool(b_and(x >= self.start, x < self.stop))
 
     def __iter__(self):
-        raise Concretized("iteration over a symbolic range")
+        n = self.stop - self.start
+        if isinstance(n, (SymInt, SymBV)):
+            n = n.__index__()           # the LENGTH must be concrete; the elements may be symbolic
+        for i in range(n):
+            yield self.start + i
 
     def __repr__(self):
         return "<symrange>"
@@ -373,7 +483,7 @@ class SymPart:
 
 def sym_isinstance(obj, cls):
     t = type(obj)
-    if t is SymInt:
+    if t is SymInt or t is SymBV:
         if cls is int or (type(cls) is tuple and int in cls):
             return True
         return False
@@ -426,6 +536,9 @@ class Concrete:
     def part(self, name):
         return ALPHA[self.values.get(name, 0)]
 
+    def bv(self, name, lo=None, hi=None):
+        return self.int(name, lo, hi)
+
     def assume(self, cond):
         if not cond:
             raise PathAbort()
@@ -458,7 +571,8 @@ def run_concrete(fn, values, modules=()):
 class Engine:
     symbolic = True
 
-    def __init__(self, timeout_ms=20000, validate=True):
+    def __init__(self, timeout_ms=20000, validate=True, keep_symbolic=False):
+        self.keep_symbolic = keep_symbolic
         self.solver = z3.Solver()
         self.solver.set("timeout", timeout_ms)
         self.paths = 0
@@ -484,6 +598,15 @@ class Engine:
             raise Inconclusive(f"solver returned unknown ({self.solver.reason_unknown()})")
         return r
 
+    def disjoint_or(self, a, b):
+        """a | b for two symbolic operands whose set bits are provably disjoint below 2^16: a + b."""
+        bits = []
+        for k in range(16):
+            bits.append(z3.Or(((a.e / (1 << k)) % 2) == 0, ((b.e / (1 << k)) % 2) == 0))
+        self.side_condition(z3.And(a.e >= 0, b.e >= 0, a.e < (1 << 16), b.e < (1 << 16), *bits),
+                            "operands of | have disjoint bits")
+        return _mk(a.e + b.e)
+
     def fresh_id(self):
         self._ids += 1
         return self._ids
@@ -497,6 +620,15 @@ class Engine:
         if hi is not None:
             self._add(v <= hi)
         return SymInt(v)
+
+    def bv(self, name, lo=None, hi=None):
+        v = z3.BitVec(name, BVW)
+        self._declared[name] = v
+        if lo is not None:
+            self._add(v >= lo)          # signed comparison on 16 bits; harness bounds stay far below 2^15
+        if hi is not None:
+            self._add(v <= hi)
+        return SymBV(v)
 
     def part(self, name):
         v = z3.Int(name)
@@ -581,11 +713,17 @@ class Engine:
         return d
 
     def _values(self, model):
-        return {n: model.eval(v, model_completion=True).as_long() for n, v in self._declared.items()}
+        out = {}
+        for n, v in self._declared.items():
+            val = model.eval(v, model_completion=True)
+            out[n] = val.as_signed_long() if z3.is_bv(val) else val.as_long()
+        return out
 
     def _eval(self, model, v):
         if isinstance(v, SymInt):
             return model.eval(v.e, model_completion=True).as_long()
+        if isinstance(v, SymBV):
+            return model.eval(v.e, model_completion=True).as_signed_long()
         if isinstance(v, SymBool):
             return z3.is_true(model.eval(v.e, model_completion=True))
         if isinstance(v, SymPart):
